@@ -1979,8 +1979,8 @@ end Ex
 
 /-! ## 10. the stub resolver's alias chasing -/
 
-theorem stubLookup_le (up : Query → Except Err Response) :
-    ∀ (f : Nat) (q : Query) (d : Nat) (p : Bool), (stubLookup up f q d p).2 ≤ f := by
+theorem stubLookup_le (up : Query → Except Err Response) (pi : Bool) :
+    ∀ (f : Nat) (q : Query) (d : Nat) (p : Bool), (stubLookup up pi f q d p).2 ≤ f := by
   intro f
   induction f with
   | zero => intro q d p; simp [stubLookup]
@@ -1990,19 +1990,19 @@ theorem stubLookup_le (up : Query → Except Err Response) :
     split
     · simp
     · simp
-    · rename_i target _
-      have := ih ⟨target, q.qtype⟩ (d + 1) true
+    · rename_i target cn _
+      have := ih ⟨target, q.qtype⟩ (d + 1) (p || (pi && cn))
       dsimp only
       omega
 
 /-- **`stub_alias_chain_le`**: whatever the upstream answers (alias loops included), one stub
 lookup sends at most `MAX_QUERY_DEPTH` (8) upstream queries, i.e. follows at most 7 aliases. -/
-theorem stub_alias_chain_le (up : Query → Except Err Response) (q : Query) :
-    (stubResolve up q).2 ≤ MAX_QUERY_DEPTH :=
-  stubLookup_le up _ q 0 false
+theorem stub_alias_chain_le (up : Query → Except Err Response) (q : Query) (pi : Bool) :
+    (stubResolve up q pi).2 ≤ MAX_QUERY_DEPTH :=
+  stubLookup_le up pi _ q 0 false
 
-theorem stubDecide_alias {found was p : Bool} {d : Nat} {s t : Name}
-    (h : stubDecide found was p d s = .alias t) : depthExhausted d = false := by
+theorem stubDecide_alias {found was p c c' : Bool} {d : Nat} {s t : Name}
+    (h : stubDecide found was p d s c = .alias t c') : depthExhausted d = false := by
   unfold stubDecide at h
   split at h
   · cases h
@@ -2012,8 +2012,8 @@ theorem stubDecide_alias {found was p : Bool} {d : Nat} {s t : Name}
       exact hc.2
     · cases h
 
-theorem stubClassify_alias {q : Query} {p : Bool} {d : Nat} {u : Except Err Response} {t : Name}
-    (h : stubClassify q p d u = .alias t) : depthExhausted d = false := by
+theorem stubClassify_alias {q : Query} {p c : Bool} {d : Nat} {u : Except Err Response} {t : Name}
+    (h : stubClassify q p d u = .alias t c) : depthExhausted d = false := by
   unfold stubClassify at h
   split at h
   · cases h
@@ -2023,9 +2023,9 @@ theorem stubClassify_alias {q : Query} {p : Bool} {d : Nat} {u : Except Err Resp
 
 /-- the recursion of `inner_lookup` is cut by the `DepthTracker`, never by the model's fuel: with
 `f` = distance to `MAX_QUERY_DEPTH`, more fuel changes nothing -/
-theorem stub_fuel_irrelevant (up : Query → Except Err Response) :
+theorem stub_fuel_irrelevant (up : Query → Except Err Response) (pi : Bool) :
     ∀ (f : Nat) (q : Query) (d : Nat) (p : Bool), d + f = MAX_QUERY_DEPTH → 1 ≤ f →
-      ∀ k, stubLookup up (f + k) q d p = stubLookup up f q d p := by
+      ∀ k, stubLookup up pi (f + k) q d p = stubLookup up pi f q d p := by
   intro f
   induction f with
   | zero => intro q d p _ h; omega
@@ -2037,12 +2037,12 @@ theorem stub_fuel_irrelevant (up : Query → Except Err Response) :
     split
     · rfl
     · rfl
-    · rename_i target hcl
+    · rename_i target cn hcl
       have hex := stubClassify_alias hcl
       have hf : 1 ≤ f := by
         simp only [depthExhausted, decide_eq_false_iff_not, Nat.not_le] at hex
         omega
-      rw [ih _ (d + 1) true (by omega) hf k]
+      rw [ih _ (d + 1) (p || (pi && cn)) (by omega) hf k]
 
 namespace Ex
 /-- an alias loop: every answer is `q CNAME (the other name)` -/
@@ -2655,7 +2655,7 @@ theorem answerFilter_allowed {f : Acs} {r r' : Response} (h : answerFilter f r =
 
 theorem noIp_of_rtype {x : Record} (h : x.rtype = T_SOA ∨ x.rtype = T_NS) : x.data.ip? = none := by
   cases hd : x.data <;>
-    simp_all [Record.rtype, RData.rtype, RData.ip?, T_SOA, T_NS, T_A, T_AAAA, T_CNAME, T_TXT]
+    simp_all [Record.rtype, RData.rtype, RData.ip?, T_SOA, T_NS, T_A, T_AAAA, T_CNAME, T_TXT, T_SRV]
 
 theorem addrAllowed_of_noIp {f : Acs} {x : Record} (h : x.data.ip? = none) :
     addrAllowed f x = true := by
@@ -3346,7 +3346,7 @@ theorem collectNs_len {f : Acs} {R : Nat} {st : St} (hc : CacheBoundR R st) (par
       have := ih k m config need hm
       rename_i hnot
       have hfalse : isNsRec r = false := by
-        cases hd : r.data <;> simp_all [isNsRec, Record.rtype, RData.rtype, T_NS, T_A, T_AAAA, T_CNAME, T_SOA, T_TXT]
+        cases hd : r.data <;> simp_all [isNsRec, Record.rtype, RData.rtype, T_NS, T_A, T_AAAA, T_CNAME, T_SOA, T_TXT, T_SRV]
       simp only [List.filter_cons, hfalse, Bool.false_eq_true, ↓reduceIte] at hsub ⊢
       exact this
 
